@@ -789,6 +789,13 @@ def generate(repo):
         lines.append('  mkSite %s (%d) %s%s%s' % (coq_string(s.uid), s.cap, s.coq_write(), sep, note))
     lines.append('].')
     lines.append('')
+    lines.append('(* the same list without names, for the extracted driver (Proofs/BuffersProofs.site_table_matches) *)')
+    lines.append('Definition site_table : list (Z * write) := [')
+    for i, s in enumerate(sites):
+        sep = ';' if i + 1 < len(sites) else ''
+        lines.append('  ((%d), %s)%s' % (s.cap, s.coq_write(), sep))
+    lines.append('].')
+    lines.append('')
     text = '\n'.join(lines)
     gl = ['(* GENERATED by harness/translators/c11_buffers.py from /repo/src - do not edit. *)',
           'From Coq Require Import ZArith.',
